@@ -251,7 +251,41 @@ Definition exact_clauses (h : c02_case) : list string :=
 Definition case_clauses (h : c02_case) : list string :=
   dedup_str (check_clauses h ++ exact_clauses h ++ hist_clauses (h_tabs h) (h_genesis h) (h_init h) [] (h_steps h)).
 
+(* ---------- EFFECTS (beyond the ante model: message execution).  After an accepted transaction no tracked
+   account OUTSIDE its signer list may have a lower balance, another sequence or another key -- whatever inner
+   payload (a raw Ethereum transaction signed by somebody else) the messages carry.  An inner payload that has
+   been accepted once has no effect on its signer a second time under any envelope. *)
+Definition raw_ids (t : tx) : list Z :=
+  flat_map (fun m => match m with MEth _ _ raw => [r_id raw] | _ => [] end) (t_msgs t).
+Definition offenders (sg : list addr) (pre post : ostate) : list addr :=
+  flat_map (fun e => if mem_addr (fst e) sg then []
+                     else match oget post (fst e) with
+                          | Some p => if (o_bal p <? o_bal (snd e)) || negb (o_seq p =? o_seq (snd e)) || negb (opk_eqb (o_pub p) (o_pub (snd e)))
+                                      then [fst e] else []
+                          | None => [fst e] end) pre.
+Definition payload_signer_in (T : tabs) (off : list addr) (i : Z) : bool :=
+  match t_eth_sender T i with Some a => mem_addr a off | None => false end.
+Fixpoint effect_hist (T : tabs) (pre : ostate) (seen_raw : list Z) (l : list stepobs) : list string :=
+  match l with
+  | [] => []
+  | o :: r =>
+      (if so_class o =? 0 then
+         match offenders (so_signers o) pre (so_post o) with
+         | [] => []
+         | off =>
+             if existsb (fun i => existsb (Z.eqb i) seen_raw && payload_signer_in T off i) (raw_ids (so_tx o))
+             then ["effects.inner-payload-replayed"%string]
+             else if existsb (payload_signer_in T off) (raw_ids (so_tx o))
+             then ["effects.inner-payload-signer-debited"%string]
+             else ["effects.nonsigner-changed"%string]
+         end
+       else [])
+      ++ effect_hist T (so_post o) (if so_class o =? 0 then raw_ids (so_tx o) ++ seen_raw else seen_raw) r
+  end.
+Definition effect_clauses (h : c02_case) : list string := effect_hist (h_tabs h) (h_init h) [] (h_steps h).
+Definition all_clauses (h : c02_case) : list string := dedup_str (case_clauses h ++ effect_clauses h).
+
 Fixpoint viol_from (n : nat) (cs : list c02_case) : list (nat * list string) :=
   match cs with [] => [] | c :: r =>
-    match case_clauses c with [] => viol_from (S n) r | cl => (n, cl) :: viol_from (S n) r end end.
+    match all_clauses c with [] => viol_from (S n) r | cl => (n, cl) :: viol_from (S n) r end end.
 Definition c02_violations (cs : list c02_case) : list (nat * list string) := viol_from 0 cs.
